@@ -231,6 +231,20 @@ func (cr *clRun) judgeAdmin(a *adminOp, op Op, pre map[string]string, idleBefore
 		fmt.Sscan(a.arg, &newSize)
 		if newSize <= cr.m.size {
 			if a.err == nil {
+				if a.acquired && a.ctrlSize > 0 && a.ctrlSize < cr.m.size && a.ctrlSize < newSize {
+					// The controller had forgotten an acknowledged grow (it takes its size from
+					// the replica elected at a cold start): from its point of view this was a
+					// grow. That is the defect, not the acceptance of this request.
+					clause := "volume-size-went-back"
+					for _, rn := range cr.c.reps {
+						if cr.absentDuringGrow(rn.addr, a.ctrlSize) {
+							clause += "/replica-absent-during-grow"
+							break
+						}
+					}
+					cr.viol("C16", clause, "the volume had been grown to %d (acknowledged) but the controller was back at %d when resize to %d arrived", cr.m.size, a.ctrlSize, newSize)
+					return
+				}
 				cr.viol("C16", "shrink-or-equal-resize-accepted", "resize of the volume from %d to %d succeeded", cr.m.size, newSize)
 				return
 			}
